@@ -125,6 +125,45 @@ def el_flatnonzero(a):
     return xo
 
 
+def el_unique(a, return_index=False, return_inverse=False, return_counts=False, axis=None, **kw):
+    """numpy.unique on a 1-d integer array that is NON-DECREASING (call-site obligation): the distinct values in
+    increasing order, the first index of each and the run lengths.  Assumed contract:
+      G >= 0, G == 0 iff n == 0; start[0] == 0; counts >= 1; start[g+1] == start[g] + counts[g];
+      start[G-1] + counts[G-1] == n; a[j] == uniq[g] on run g; uniq strictly increasing."""
+    used("numpy.unique(return_index, return_counts) on sorted input: run decomposition")
+    if return_inverse:
+        raise Unsupported("unique(return_inverse)")
+    a = as_earr(a)
+    if a.ndim != 1:
+        raise Unsupported("unique on ndim != 1")
+    e = cur()
+    n = _t(a._shape[0])
+    at = a._at
+    j0 = z3.Int(e.fresh_name("j"))
+    saved = list(e.assumptions)
+    e.assume(z3.And(0 <= j0, j0 < n - 1))
+    e.prove("callsite:numpy.unique:pre:input-non-decreasing", at(j0) <= at(j0 + 1), kind="call-pre")
+    e.assumptions[:] = saved
+    G = z3.Int(e.fresh_name("nuniq"))
+    uq = EArr.fresh("uniq", (SymInt(G),), a._dt)
+    st = EArr.fresh("uniq_index", (SymInt(G),), numpy.int64)
+    ct = EArr.fresh("uniq_counts", (SymInt(G),), numpy.int64)
+    u, s, c = uq._fn, st._fn, ct._fn
+    g, j = z3.Ints("q_g q_j")
+    e.assume(z3.And(G >= 0, G <= n, (G == 0) == (n == 0)))
+    e.assume(z3.Implies(G > 0, z3.And(s(0) == 0, s(G - 1) + c(G - 1) == n)))
+    e.assume(z3.ForAll([g], z3.Implies(z3.And(0 <= g, g < G), z3.And(c(g) >= 1, 0 <= s(g), s(g) + c(g) <= n)), patterns=[s(g)]))
+    e.assume(z3.ForAll([g], z3.Implies(z3.And(0 <= g, g < G - 1), z3.And(s(g + 1) == s(g) + c(g), u(g) < u(g + 1))), patterns=[s(g)]))
+    e.assume(z3.ForAll([g, j], z3.Implies(z3.And(0 <= g, g < G, s(g) <= j, j < s(g) + c(g)), at(j) == u(g)),
+                       patterns=[z3.MultiPattern(s(g), at(j))]))
+    out = [uq]
+    if return_index:
+        out.append(st)
+    if return_counts:
+        out.append(ct)
+    return out[0] if len(out) == 1 else tuple(out)
+
+
 # ---- structural ------------------------------------------------------------------
 def el_stack(arrays, axis=0, **kw):
     used("numpy.stack: result[k, ...] = arrays[k][...]")
@@ -215,7 +254,27 @@ def el_any(a, axis=None):
     return SymBool(z3.Exists([k], z3.And(0 <= k, k < n, a._at(k))))
 
 
+def el_diff(a, n=1, axis=-1, prepend=None, append=None):
+    """numpy.diff of a 1-d array, optionally with a scalar prepended: out[j] = a'[j+1] - a'[j]"""
+    used("numpy.diff (1-d, n=1, optional scalar prepend): first differences")
+    a = as_earr(a)
+    if a.ndim != 1 or n != 1 or append is not None:
+        raise Unsupported("numpy.diff beyond 1-d / n=1 / prepend")
+    at = a._at
+    ln = _t(a._shape[0])
+    if prepend is None:
+        return EArr((wrap(z3.simplify(z3.If(ln - 1 > 0, ln - 1, 0))),), lambda j: at(j + 1) - at(j), a._dt)
+    if isinstance(prepend, (EArr, numpy.ndarray)) and getattr(prepend, "ndim", 0) > 0:
+        raise Unsupported("numpy.diff with array prepend")
+    c = _t(prepend)
+    if a._es == z3.RealSort() and c.sort() == z3.IntSort():
+        c = z3.ToReal(c)
+    return EArr((a._shape[0],), lambda j: at(j) - z3.If(j == 0, c, at(j - 1)), a._dt)
+
+
 EL_FUNCS = {
+    "diff": el_diff,
+    "unique": el_unique,
     "flatnonzero": el_flatnonzero, "stack": el_stack, "repeat": el_repeat, "copy": el_copy,
     "where": el_where, "sum": el_sum, "all": el_all, "any": el_any,
     "empty_like": lambda a, dtype=None, **k: el_empty(a.shape, dtype or a.dtype),
